@@ -6,7 +6,7 @@ from engine import Op, set_mode
 
 PROP = "C06"
 QUICK_BOOST = 2
-LEAN_MODULES = ["IsoDT.Props.C06", "IsoDT.Props.C06b", "IsoDT.Props.C06c", "IsoDT.Props.C02q"]
+LEAN_MODULES = ["IsoDT.Props.C06", "IsoDT.Props.C06b", "IsoDT.Props.C06c", "IsoDT.Props.C06d", "IsoDT.Props.C02q"]
 RULE = ("source points (3 representations, any offset, 24:00) x destination offsets from the boundary list and "
         "uniform in -99:59..+99:59 (thorough: all 199 x 119 sign-consistent (h, m) pairs); zone-bearing dump "
         "formats; non-trivial when the local date changes; distinct by (op, arguments)")
